@@ -39,11 +39,11 @@ ID = "C04"
 LEVEL = "proof"
 MANIFEST = {
     "level_text": "Coq proofs over tables REGENERATED from the current C sources: for every Bool, Char, Byte, "
-                  "HInt and machine-integer builtin (75 operations) each of the three evaluators' C expressions "
+                  "HInt, machine-integer and double-word builtin (75 builtins, the multi-result ones component by component) each of the three evaluators' C expressions "
                   "(folder, interpreter, generated C + runtime macros) is defined and equals the mathematical "
                   "definition on ALL well-typed operands of the stated domain (finite types exhaustively, "
                   "64-bit integers by proof over Z with explicit wrap-around); corollary three_agree; float / "
-                  "big-integer / runtime-only builtins are proved to be syntactically the same C operation or "
+                  "big-integer / runtime-only / multi-result builtins (167) are proved to be syntactically the same C operation or "
                   "runtime call in every evaluator that implements them; coverage_complete puts every builtin "
                   "of foamBValInfoTable in exactly one class.  The embedding of C and the translator are "
                   "validated, and the property is decided independently, by running generated programs through "
@@ -167,6 +167,30 @@ SPEC = {
     "RoundDown": ([], S, lambda: 3, ALWAYS), "RoundDontCare": ([], S, lambda: 4, ALWAYS),
 }
 
+W = "FWord"
+M64W = 1 << 64
+# components of the multi-result builtins ("X#k" = result k of X); Word = unsigned 64-bit
+SPEC.update({
+    "SIntDivide#0": ([S, S], S, cquot, div_ok), "SIntDivide#1": ([S, S], S, crem, div_ok),
+    "WordPlusStep#0": ([W, W, W], W, lambda a, b, k: (a + b + k) >> 64, ALWAYS),
+    "WordPlusStep#1": ([W, W, W], W, lambda a, b, k: (a + b + k) % M64W, ALWAYS),
+    "WordTimesDouble#0": ([W, W], W, lambda a, b: (a * b) >> 64, ALWAYS),
+    "WordTimesDouble#1": ([W, W], W, lambda a, b: (a * b) % M64W, ALWAYS),
+    "WordTimesStep#0": ([W, W, W, W], W, lambda a, b, c, k: (a * b + c + k) >> 64, ALWAYS),
+    "WordTimesStep#1": ([W, W, W, W], W, lambda a, b, c, k: (a * b + c + k) % M64W, ALWAYS),
+})
+# multi-result builtins: name -> (argument types, result types, python function returning the tuple, domain)
+MULTI = {
+    "SIntDivide": ([S, S], [S, S], lambda a, b: (cquot(a, b), crem(a, b)), div_ok, True),
+    "WordPlusStep": ([W, W, W], [W, W], lambda a, b, k: divmod(a + b + k, M64W), ALWAYS, True),
+    "WordTimesDouble": ([W, W], [W, W], lambda a, b: divmod(a * b, M64W), ALWAYS, True),
+    "WordTimesStep": ([W, W, W, W], [W, W], lambda a, b, c, k: divmod(a * b + c + k, M64W), ALWAYS, True),
+    # same-operation class (runtime function with branches and a loop): exact arithmetic on the runs only
+    "WordDivideDouble": ([W, W, W], [W, W, W],
+                         lambda nh, nl, d: (((nh << 64) + nl) // d >> 64, ((nh << 64) + nl) // d % M64W, ((nh << 64) + nl) % d),
+                         lambda nh, nl, d: d != 0, False),
+}
+
 # integer builtins without a Coq spec (one implementation in the runtime, the folder declines or
 # calls the same function): compared with exact arithmetic by the runs only
 import math   # noqa: E402
@@ -191,6 +215,12 @@ def boundary(ty):
         return [0, 1, 2, 127, 128, 254, 255]
     if ty == H:
         return [0, 1, -1, 2, 127, 128, 255, 256, 257, -255, -256, 32766, 32767, -32767, -32768]
+    if ty == W:
+        # carry boundaries: all-ones words and halves, the 2^32 split, the sign bit
+        vs = {0, 1, 2, 3, (1 << 32) - 1, 1 << 32, (1 << 32) + 1, (1 << 31), (1 << 63) - 1, 1 << 63, (1 << 63) + 1,
+              M64W - 1, M64W - 2, 0xFFFFFFFF00000000, 0xFFFFFFFF00000001, 0x00000001FFFFFFFF, 0x8000000080000000,
+              0xFFFFFFFEFFFFFFFF, 0x0000000100000001, 0xFFFF0000FFFF0000, 0x5555555555555555, 10, 1 << 16}
+        return sorted(vs)
     vals = {0, 1, -1, 2, -2, 3, -3, 7, -7, 10, 63, 64, 65}
     for k in (7, 8, 15, 16, 31, 32, 62, 63):
         for d in (-1, 0, 1):
@@ -352,7 +382,8 @@ macro KB(n) == ((n@Integer)::BInt);
 def aldor_sig(name, sig):
     s = sig[name]
     args = ", ".join(ALDOR_TY[a] for a in s["args"])
-    return "  %s: (%s) -> %s;" % (name, args, ALDOR_TY[s["ret"]])
+    ret = ALDOR_TY[s["ret"]] if s["ret"] != "FMulti" else "(%s)" % ", ".join(ALDOR_TY[r] for r in s["rets"])
+    return "  %s: (%s) -> %s;" % (name, args, ret)
 
 
 def operand_expr(ty, v):
@@ -368,6 +399,8 @@ def operand_expr(ty, v):
         return "SIntToByte(K(%d))" % v
     if ty == H:
         return "SIntToHInt(%s)" % operand_expr(S, v)
+    if ty == W:             # an unsigned word, written through its signed reinterpretation
+        return "(%s pretend Word)" % operand_expr(S, v - M64W if v >= M63 else v)
     if ty == "FDFlo":       # the double 1/v
         return "DFloDivide(SIntToDFlo(K(1)), SIntToDFlo(%s))" % operand_expr(S, v)
     raise ValueError(ty)
@@ -384,6 +417,8 @@ def result_stmt(tag, rty, e):
         return 'pr("%s", ByteToSInt(%s));' % (tag, e)
     if rty == H:
         return 'pr("%s", HIntToSInt(%s));' % (tag, e)
+    if rty == W:
+        return 'pr("%s", (%s) pretend SInt);' % (tag, e)
     raise ValueError(rty)
 
 
@@ -396,9 +431,10 @@ def used_builtins(exprs, sig):
     return sorted(names)
 
 
-def program(tests, sig):
-    """tests: [(aldor expression, result FOAM type)] -> source printing `t<i> <integer>` per test."""
-    body = [result_stmt("t%d" % i, rty, e) for i, (e, rty) in enumerate(tests)]
+def program(tests, sig, pre=()):
+    """tests: [(aldor expression, result FOAM type)] -> source printing `t<i> <integer>` per test;
+    `pre`: statements placed before (multi-result calls binding the variables the tests print)."""
+    body = list(pre) + [result_stmt("t%d" % i, rty, e) for i, (e, rty) in enumerate(tests)]
     names = used_builtins(body, sig)
     hdr = HEADER % "\n".join(aldor_sig(n, sig) for n in names)
     return hdr + "\n".join(body) + "\n"
@@ -497,15 +533,16 @@ def run_real(jobs, routes=("interp", "fold", "c"), exe=None):
 
     def one(i):
         j = jobs[i]
-        src = program([(e, rty) for e, rty, want, ops in j["tests"]], sig)
+        src = program([(x[0], x[1]) for x in j["tests"]], sig, j.get("pre", ()))
         j["results"], j["extra"] = run_program(exe, os.path.join(top, "j%d" % i), "p", src, j["name"], routes, rt)
         for r in routes:
             # the compiler itself may not terminate at -Q2 on some programs (corpus/C04/hang_q2.as, reported):
             # evaluate the statements of such a program one by one on that route
             if j["results"].get(r, {}).get("timeout"):
                 vals = {}
-                for k, (e, rty, want, ops) in enumerate(j["tests"]):
-                    one_src = program([(e, rty)], sig)
+                for k, x in enumerate(j["tests"]):
+                    e, rty = x[0], x[1]
+                    one_src = program([(e, rty)], sig, j.get("pre", ()))
                     rr, _ = run_program(exe, os.path.join(top, "j%d_%s_%d" % (i, r, k)), "p", one_src, j["name"], (r,), rt)
                     v = rr.get(r, {})
                     if "t0" in v:
@@ -698,6 +735,32 @@ def bint_jobs(rng, cap):
     return jobs
 
 
+def multi_jobs(rng, cap, only=None, extra=None):
+    """Multi-result builtins: `(v0, v1) := X(constants)` and every component printed."""
+    jobs = []
+    for n, (argtys, rtys, fn, dom, specd) in MULTI.items():
+        if only is not None and n not in only:
+            continue
+        tups, _ = tuples_for(n, argtys, dom, rng, cap)
+        more = [tuple(x) for x in (extra or {}).get(n, []) if len(x) == len(argtys) and dom(*x)]
+        tups = [x for x in more if x not in tups] + tups
+        if n == "WordDivideDouble":
+            # regression operands of the lost high quotient word (divisor below 2^32, nhi >= d; fixed in ab227b3)
+            tups = [(5, 0, 2), (3, 7, 3), (1 << 40, 5, 3), (M64W - 1, M64W - 1, 1), (M64W - 1, 0, (1 << 32) - 1)] + \
+                   [t for t in tups if t[2] != 0][:cap]
+        for k0 in range(0, len(tups), 20):
+            pre, tests = [], []
+            for i, t in enumerate(tups[k0:k0 + 20]):
+                vs = ["m%dr%d" % (i, k) for k in range(len(rtys))]
+                call = "%s(%s)" % (n, ", ".join(operand_expr(ty, v) for ty, v in zip(argtys, t)))
+                pre.append("(%s) := %s;" % (", ".join("%s: %s" % (v, ALDOR_TY[rt]) for v, rt in zip(vs, rtys)), call))
+                want = fn(*t)
+                for k, (v, rt) in enumerate(zip(vs, rtys)):
+                    tests.append((v, rt, want[k], list(t), "%s#%d" % (n, k), call))
+            jobs.append({"name": n, "tests": tests, "pre": pre, "spec": specd})
+    return jobs
+
+
 # ------------------------------------------------------------------ the check
 
 def route_of_real(r):
@@ -728,20 +791,26 @@ def compare_real(rep, jobs, model, state):
                 state["route_errors"].append((name, r, vals["error"]))
             if vals.get("split_after_timeout"):
                 state["timeouts"].append((name, r))
-            for i, (e, rty, want, ops) in enumerate(tests):
+            for i, x in enumerate(tests):
+                e, rty, want, ops = x[:4]
+                if rty == W and want >= M63:
+                    want -= M64W            # words are printed through `pretend SInt`
                 got = vals.get("t%d" % i)
                 n_eval += 1
                 per_route[r] = per_route.get(r, 0) + 1
                 if got != want:
-                    state["real_bad"].append((name, e, ops, r, got, want))
+                    shown = e if len(x) < 6 else "result %s of %s" % (x[4], x[5])
+                    state["real_bad"].append((name, shown, ops, r, got, want))
                 elif len(samples) < 12 and (i + len(name)) % 23 == 3:
                     samples.append({"expression": e, "route": r, "value": got})
         n_points += len(tests)
         if j.get("spec"):
-            for e, rty, want, ops in tests:
+            for x in tests:
+                e, rty, want, ops = x[:4]
+                mname = x[4] if len(x) > 4 else name
                 for route in ("cfold", "fint", "genc"):
-                    mq.append((route, name, 0, tuple(ops)))
-                    mmeta.append((name, ops, route, want))
+                    mq.append((route, mname, 0, tuple(ops)))
+                    mmeta.append((mname, ops, route, want))
     pred = model.sem(mq) if mq else []
     state["model_bad_on_run_points"] = [(m, p) for m, p in zip(mmeta, pred)
                                         if p not in ("declined", "none") and p != m[3]]
@@ -806,7 +875,7 @@ def run(rep, tier):
     def searcher(log):
         """A proof obligation over the regenerated tables failed: find operands on which a row
         differs from the definition (in the extracted model), then confirm on the real system."""
-        failed = sorted(set(re.findall(r'ROW-FAILED "(\w+)"', log)))
+        failed = sorted(set(re.findall(r'ROW-FAILED "([\w#]+)"', log)))
         rep.add_cov(failed_rows=failed)
         try:
             model = get_model()
@@ -824,7 +893,14 @@ def run(rep, tier):
                 if b["operands"] not in CORPUS[nme]:
                     CORPUS[nme].append(b["operands"])
         names = sorted(set(cands) | {f for f in failed if f in SPEC or f in ORACLE_ONLY})
+        comp = [n for n in names if "#" in n]       # components of multi-result builtins: run the whole builtin
+        names = [n for n in names if "#" not in n]
         jobs = spec_jobs(names, C.rng("c04-search"), 300)
+        if comp:
+            extra = {}
+            for n in comp:
+                extra.setdefault(n.split("#")[0], []).extend(b["operands"] for b in cands.get(n, [])[:40])
+            jobs += multi_jobs(C.rng("c04-search-m"), 120, only={n.split("#")[0] for n in comp}, extra=extra)
         other = [f for f in failed if f not in SPEC and f not in ORACLE_ONLY]
         if other:
             jobs += [j for j in float_jobs(C.rng("c04-search-f"), 60) + bint_jobs(C.rng("c04-search-b"), 60)
@@ -838,7 +914,7 @@ def run(rep, tier):
         reported = {nm for nm, *_ in state["real_bad"]}
         report_real_bad(rep, state)
         for nme, lst in cands.items():
-            if nme not in reported:
+            if nme not in reported and nme.split("#")[0] not in reported:
                 b = lst[0]
                 rep.violation("model of %s row %s differs from the definition on %s but the real system agrees with the "
                               "definition there: the translation/model no longer describes the code" % (
@@ -858,11 +934,11 @@ def run(rep, tier):
         rep.violation("extracted model contradicts the proved theorems on %s" % bad[0], {"bad": bad[:5]}, no_input=True)
 
     # 3-way run on the real system
-    names = [n for n in SPEC] + list(ORACLE_ONLY)
+    names = [n for n in SPEC if "#" not in n] + list(ORACLE_ONLY)
     cap = 1500 if thorough else 40
     t0 = time.time()
     jobs = spec_jobs(names, rng, cap) + float_jobs(C.rng("c04-f"), 120 if thorough else 25) \
-        + bint_jobs(C.rng("c04-b"), 300 if thorough else 30)
+        + bint_jobs(C.rng("c04-b"), 300 if thorough else 30) + multi_jobs(C.rng("c04-m"), 600 if thorough else 60)
     run_real(jobs)
     n_eval, n_points, per_route, fconf, ftot, samples = compare_real(rep, jobs, model, state)
     report_real_bad(rep, state)
@@ -893,7 +969,10 @@ def run(rep, tier):
             "fold_confirmed_tuples": fconf, "fold_expected_tuples": ftot,
             "model_sweep_evaluations": n_sweep, "ctype_points": n_ct, "dead_code_fault_probe_runs": n_fault},
         rows={r: {"rows": c[0], "translated": c[1]} for r, c in counts.items()},
-        classes={"specified": len(SPEC), "oracle_only_run": sorted(ORACLE_ONLY), "excluded": excluded_names()},
+        classes={"specified": class_lists()[0], "same_operation": class_lists()[1], "excluded": excluded_names(),
+                 "counts": {"specified": len(class_lists()[0]), "same_operation": len(class_lists()[1]),
+                            "excluded": len(excluded_names()), "all_builtins": len(tr["sig"])},
+                 "oracle_only_run": sorted(ORACLE_ONLY)},
         known_bad_rows=kb,
         folds_not_confirmed={k: v for k, v in sorted(state["fold_stats"].items()) if not v["folder_row_declines"]
                              and v["bcalls_left_at_Q2"] > 0},
@@ -915,9 +994,18 @@ def run(rep, tier):
 
 
 def excluded_names():
+    """[(builtin, reason)] of the excluded-by-name class (coq/Builtins/Spec.v `excluded`)."""
     txt = open(os.path.join(C.COQ, "Builtins", "Spec.v")).read()
     m = re.search(r"Definition excluded.*?:=\s*\[(.*?)\n\]\.", txt, re.S)
-    return re.findall(r'\("(\w+)",', m.group(1)) if m else []
+    return [{"builtin": a, "reason": b} for a, b in re.findall(r'\("(\w+)",\s*"([^"]*)"\)', m.group(1))] if m else []
+
+
+def class_lists():
+    txt = open(os.path.join(C.COQ, "Builtins", "Spec.v")).read()
+    m = re.search(r"Definition sameop_names.*?:=\s*\[(.*?)\n\]\.", txt, re.S)
+    same = re.findall(r'"(\w+)"', re.sub(r"\(\*.*?\*\)", "", m.group(1), flags=re.S)) if m else []
+    spec = sorted({n.split("#")[0] for n in SPEC})
+    return spec, same
 
 
 def _load_corpus():
